@@ -30,6 +30,13 @@ SRC_CRS = "epsg:3857"
 
 
 # ---- geometry / projection stand-ins ----------------------------------------------------------
+
+def _same_num(got, want):
+    """replay in doubles: the exact rational of the model against the library's double, to a few ulps"""
+    g, w = float(got), float(want)
+    return abs(g - w) <= 4e-16 * max(abs(g), abs(w)) + 1e-300
+
+
 def _install_geom(responses):
     """FakeGeometry (vertex list) gets buffer / to_crs / dropna for the duration of one run:
     buffer(d) of a rectangle -> the rectangle grown by d (same bounding box as the rounded
@@ -439,7 +446,7 @@ def h_shape(dst, shape, span, pin, tight=False, anchor="default"):
     prove("axis_aligned", And(ex(A.b) == 0, ex(A.d) == 0))
     if isinstance(shape, int):
         pxs = max(sx, sy) / shape
-        prove("square_pixels_from_the_longest_side", And(ex(A.a) == pxs, ex(A.e) == -pxs))
+        prove("square_pixels_from_the_longest_side", _same_num(A.a, pxs) and _same_num(A.e, -pxs) if symx.concrete_mode() else And(ex(A.a) == pxs, ex(A.e) == -pxs))
         longest = symx.m_max(out.shape.x, out.shape.y) if not symx.concrete_mode() else max(out.shape.x, out.shape.y)
         prove("longest_side_has_that_many_pixels", longest == shape)
         if tight:
@@ -450,7 +457,7 @@ def h_shape(dst, shape, span, pin, tight=False, anchor="default"):
     ny, nx = shape
     prove("exactly_the_requested_shape", And(out.shape.x == nx, out.shape.y == ny))
     px, py = sx / nx, sy / ny
-    prove("pixel_is_span_over_shape", And(ex(A.a) == px, ex(A.e) == -py))
+    prove("pixel_is_span_over_shape", _same_num(A.a, px) and _same_num(A.e, -py) if symx.concrete_mode() else And(ex(A.a) == px, ex(A.e) == -py))
     if tight or axy is None:
         prove("tight_result_sits_on_the_footprint", And(x0 == L, y0 == T))
     else:
